@@ -47,6 +47,30 @@ CHECKS = {
         note="Trusted: the signature table in harness/refimpl/src/eval.rs (26 rows from the function specification).",
         technique="runtime monitoring: exhaustive decision-table execution against a specification signature table",
     ),
+    "C07": dict(
+        text="Event-log monitoring: every slice and index result of the real code over an exhaustive small space, an extreme grid and random triples is "
+        "recorded and re-computed offline by CPython's own list slicing, under an overflow-checked and a wrapping build.",
+        note="Trusted: CPython list slicing as the specification (the statement equates them); the record format.",
+        technique="runtime monitoring: offline checker over a recorded event log with CPython slicing as oracle (exhaustive small space + random)",
+    ),
+    "C08": dict(
+        text="Event-log monitoring of the JSON round trip: hostile JSON texts are passed through from_json/search('@')/to_string and the Value bridges; "
+        "CPython's json+Decimal reads input and output independently and compares them leaf by leaf with the accuracy classes the statement names.",
+        note="Trusted: CPython json/Decimal; the statement's three numeric accuracy classes as implemented in py/check_json.py.",
+        technique="runtime monitoring: offline checker over recorded (input, output) pairs with CPython json/Decimal as oracle; exact in-process round-trip monitors",
+    ),
+    "C09": dict(
+        text="Decoder monitoring: the value the real lexer assigns to raw strings, backtick literals and quoted identifiers is compared with an independent "
+        "decoder on arbitrary token text (exhaustive for short dangerous bodies), and the three round-trip laws are executed on random strings/values/keys.",
+        note="Trusted: the independent decoders in harness/refimpl (lex.rs, json.rs).",
+        technique="runtime monitoring: independent-decoder differential oracle + executed round-trip laws",
+    ),
+    "C10": dict(
+        text="Algebraic-law monitoring: all ordered pairs of a pool of JSON values are evaluated under the six comparison operators in two forms on the real "
+        "code; an independent exact equality/order (numbers from their decimal spellings) and the contract's laws decide.",
+        note="Trusted: the decimal comparator and structural equality in harness/driver/src/c10.rs.",
+        technique="runtime monitoring: exhaustive pairwise execution over a value pool against algebraic-law and exact-arithmetic oracles",
+    ),
 }
 
 ENGINES = [
